@@ -113,6 +113,7 @@ partial def loop (h : IO.FS.Stream) (out : IO.FS.Stream) (w : World) : IO Unit :
     out.putStrLn (" ".intercalate (w.ready.map showRef))
     loop h out w
   | ["flush!"] => out.flush; loop h out w
+  | "mark" :: _ => out.putStrLn "mark"; loop h out w
   | _ =>
     match parseWOp toks with
     | none => out.putStrLn "bad-op"; loop h out w
